@@ -557,6 +557,14 @@ func ruleNetText(r *Run, p *Prog) {
 				okAll, why = false, "renders "+descr(c.Call.Args[2])
 			}
 		})
+		// … on every path: a fast path that formats the address some other way (netip's AppendTo
+		// prints an IPv4-mapped address as ::ffff:a.b.c.d) is a second rendering of the same value
+		if skip, _ := pathExists(v, nil, isReturn, func(x ssa.Instruction) bool {
+			c, ok := x.(*ssa.Call)
+			return ok && staticCallee(&c.Call) == as
+		}, nil); skip && okAll {
+			okAll, why = false, "has a path that does not render through AppendString(value.String())"
+		}
 		okc := okAll && n > 0
 		r.Ob("ELEM", FnName(f)+"/net-text", p.Pos(f.Pos()), okc, true, tern(okc, "rendered as the net package's String() of the value", nm+" "+why+" instead of the value's own String(): some representations of the same address/prefix are rendered in another text form than the documented one"))
 	}
